@@ -20,14 +20,14 @@ META.update({
          "design_ref": "DESIGN.md 4/C07", "note": NOTE_ASYNC, "technique": "stateful property-based testing (rapid); callback-order oracle"},
  "C11": {"text": "Random reachable states x one input of each inadmissible class (or re-delivery of a stored payload): whole-state fingerprint, broadcast count and callback count must not change; all calls of all worlds run under panic capture. Thorough adds native coverage-guided fuzzing of the same driver.",
          "design_ref": "DESIGN.md 4/C11", "note": NOTE_ASYNC + " Inadmissible = decidable at delivery time as listed in the property; future-view pre-commits with anti-MEV off are not asserted.", "technique": "property-based testing (rapid) with differential state fingerprint; native go fuzzing in the thorough tier"},
- "C12": {"text": "Obligation tracking per node: the hashes passed to RequestTx for the stored proposal; once the harness has supplied all of them while the preconditions of the property held, a PrepareResponse naming the proposal or a ChangeView must have been broadcast by the return of the last OnTransaction.",
+ "C12": {"text": "Obligation tracking per node: the hashes passed to RequestTx for the stored proposal; once the harness has supplied all of them while the preconditions of the property held, a PrepareResponse naming the proposal or a ChangeView must have been broadcast by the return of the last OnTransaction. Adversarial worlds plus a single-node generator for the nested case (view change and a cached next-view proposal, possibly re-proposing the same transactions, inside OnTransaction).",
          "design_ref": "DESIGN.md 4/C12", "note": NOTE_ASYNC, "technique": "stateful property-based testing (rapid); obligation/answer oracle"},
- "C13": {"text": "Zero Broadcast / Block.Sign / PreBlock.SetData events on any node that is outside the validator list or carries the watch-only flag, in every state the adversarial driver reaches, incl. being primary at Start and after Reset.",
+ "C13": {"text": "Zero Broadcast / Block.Sign / PreBlock.SetData events on any node that is outside the validator list or carries the watch-only flag, in every state the adversarial driver reaches, incl. being primary at Start and after Reset; timed worlds in which the validators around a flagged validator must progress as if it were silent; and a single-node generator for a flagged validator whose peers relay what its index sent before the flag was set (own proposal, responses, commits, alone or in recovery messages).",
          "design_ref": "DESIGN.md 4/C13", "note": NOTE_ASYNC, "technique": "stateful property-based testing (rapid); silence oracle on instrumented callbacks"},
 })
 NOTE_TIMED = NOTE_ASYNC + " Timed mode is a discrete-event simulation: virtual clock, latencies drawn in [0,L], timers fire at their deadline; liveness is judged against an explicit virtual-time horizon."
 META.update({
- "C08": {"text": "Fault-free synchronous discrete-event runs with drawn delivery order, duplicates and lagging Reset; oracle: every validator accepts every height in view 0 on one block, nobody ever broadcasts ChangeView / RecoveryRequest / RecoveryMessage, nobody needs ledger sync.",
+ "C08": {"text": "Fault-free synchronous discrete-event runs with drawn delivery order (per-message latencies, and a phase-skew class in which whole phases of a round reach drawn nodes in a drawn order), duplicates and lagging Reset; oracle: every validator accepts every height in view 0 on one block, nobody ever broadcasts ChangeView / RecoveryRequest / RecoveryMessage, nobody needs ledger sync.",
          "design_ref": "DESIGN.md 4/C08", "note": NOTE_TIMED, "technique": "property-based testing (rapid) over a discrete-event simulation of real instances; history oracle"},
  "C09": {"text": "Three generated fault families (silent validators, arbitrary cut+heal, crash+amnesia restart) followed by synchrony; oracle: every live validator reaches the target height before a generous explicit horizon, and (family i, first height) decides in a view <= number of silent validators.",
          "design_ref": "DESIGN.md 4/C09", "note": NOTE_TIMED + " Bounded liveness only: 'eventually' = the stated horizon.", "technique": "property-based testing (rapid) with fault injection over a discrete-event simulation; bounded-progress oracle"},
@@ -39,7 +39,7 @@ META.update({
          "design_ref": "DESIGN.md 4/C06", "note": "Trusted base: the reference arithmetic in the test (search for F, int64/big.Int for the primary). Heights are sampled at boundaries + random draws, not enumerated.", "technique": "exhaustive generation of the finite N x view domain + rapid-drawn heights; differential oracle against a reference implementation"},
 })
 META.update({
- "C14": {"text": "Metamorphic relation over generated single-node scripts: shifting the injected clock (and the absolute previous-block timestamp) by a constant leaves every payload, timer duration and accepted block unchanged up to that shift, and re-running later on the same virtual clock is bit-identical (no wall-clock input).",
+ "C14": {"text": "Metamorphic relation over generated single-node scripts: shifting the injected clock (and the absolute previous-block timestamp) by a constant leaves every payload, timer duration and accepted block unchanged up to that shift, re-running later on the same virtual clock is bit-identical (no wall-clock input), and shifting only the injected clock while every input keeps its value leaves the payload sequence, every timer duration and the decided heights unchanged.",
          "design_ref": "DESIGN.md 4/C14", "note": "Trusted base: harness value types are clock-free; scripts refer to the node's own outputs only, so both runs follow the same script exactly when the node behaves the same.", "technique": "metamorphic property-based testing (rapid): clock-shift relation between paired runs"},
  "C15": {"text": "Instrumented NewPrepareRequest / GetVerified / NewBlockFromContext / Broadcast: the proposal equals the context values and the pool in order, timestamp > previous and = truncated clock whenever that is larger, and the primary's own block carries the same values - over drawn clocks, increments, pools, views and backward clock steps.",
          "design_ref": "DESIGN.md 4/C15", "note": "Trusted base: the monitor's own timestamp arithmetic.", "technique": "property-based testing (rapid) of one real instance with scripted peers; direct oracle on constructor arguments"},
